@@ -2390,3 +2390,43 @@ def f_transactions_lsm(case):
     sim = mksim([lsm, tm] + cs, 1500, events=[ev(1 + 2 * i, c, "Start", w=i) for i, c in enumerate(cs)])
     return Scenario(sim, workload=nclients * 40,
                     extra=lambda: {"logs": [c.log for c in cs], "levels": lsm.level_summary, "lsm": lsm.stats})
+
+
+SLOW_WINDOWS = [1.7, 2.05, 3.3, 4.1, 8.2, 16.4]      # float-unfriendly periods above one second
+
+
+@family("rate_limiters_slow", "strkeys")
+def f_rate_limiters_slow(case):
+    """Every rate-limiter policy, the Inductor and the DistributedRateLimiter with a period W > 1 s that floats cannot
+    represent exactly (window sizes W, rates k/W), bursts that leave requests buffered, and an explicit end_time of a
+    dozen periods: the polls that release the buffered requests land exactly on the window / refill boundaries."""
+    from happysimulator.components.datastore import KVStore
+    from happysimulator.components.rate_limiter import DistributedRateLimiter, Inductor, RateLimitedEntity
+    from happysimulator.components.rate_limiter import policy as rp
+    k = K(case)
+    W = pick(SLOW_WINDOWS, k[0])
+    n = 1 + k[1] % 2
+    sink = Sink("sink")
+    pols = {"token": rp.TokenBucketPolicy(capacity=float(n), refill_rate=n / W, initial_tokens=float(k[2] % 2)),
+            "leaky": rp.LeakyBucketPolicy(leak_rate=n / W),
+            "sliding": rp.SlidingWindowPolicy(window_size_seconds=W, max_requests=n),
+            "fixed": rp.FixedWindowPolicy(requests_per_window=n, window_size=W),
+            "adaptive": rp.AdaptivePolicy(initial_rate=2.0 * n / W, min_rate=1.0 / W, max_rate=8.0 / W, window_size=W)}
+    lims = [RateLimitedEntity(f"rl_{name}", sink, p, queue_capacity=[1000, 4][k[3] % 2]) for name, p in pols.items()]
+    ind = Inductor("inductor_slow", sink, time_constant=W, queue_capacity=[10000, 4][k[3] % 2])
+    redis = KVStore("redis", read_latency=0.001, write_latency=0.001)
+    dist = [DistributedRateLimiter(f"dist{i}", sink, redis, global_limit=n + i, window_size=W) for i in range(2)]
+    targets = lims + [ind] + dist
+    evs = []
+    burst = 3 + k[4] % 3                                   # n are admitted, the rest is buffered
+    for tgt in targets:
+        for j in range(burst):
+            evs.append(Event(time=Instant.Epoch, event_type="Request", target=tgt, context={"created_at": Instant.Epoch, "prio": j}))
+        for j in range(1, 5):                              # later arrivals on half-period multiples and just off them
+            t = Instant.from_seconds(j * W / 2) + (0 if (k[5] + j) % 3 else Duration(1000 * (1 + k[6] % 3)))
+            evs.append(Event(time=t, event_type="Request", target=tgt, context={"created_at": t, "prio": 0}))
+    from happysimulator.core.simulation import Simulation as _Sim
+    sim = _Sim(entities=targets + [redis, sink], end_time=Instant.from_seconds((10 + k[7] % 4) * W))
+    for e in evs:
+        sim.schedule(_fresh(e))
+    return Scenario(sim, workload=len(evs), variant=f"W{W}")
